@@ -32,6 +32,9 @@ type Scenario struct {
 	TimersLive bool
 	AllowPanic bool
 	AllowRace  bool
+	// NoSleep turns the sleep-set reduction off (scenarios whose oracle is an invariant over
+	// intermediate global states rather than end states, local assertions and monitor objects).
+	NoSleep    bool
 	Body       func(c *vsched.Ctx)
 	// MinOutcomes is the number of distinct end-state labels the scenario must
 	// produce for the exploration to count as non-vacuous (default 1).
@@ -74,7 +77,7 @@ func plan(s *Scenario) Plan {
 }
 
 func cfgFor(s *Scenario, bound, shard, n int) vsched.Config {
-	return vsched.Config{Name: s.Name, Bound: bound, Delay: plan(s).Delay, TimersLive: s.TimersLive, AllowPanic: s.AllowPanic, AllowRace: s.AllowRace,
+	return vsched.Config{Name: s.Name, Bound: bound, Delay: plan(s).Delay, Sleep: bound < 0 && !s.NoSleep && os.Getenv("VERIF_SLEEP") != "0", TimersLive: s.TimersLive, AllowPanic: s.AllowPanic, AllowRace: s.AllowRace,
 		Deadline: vcommon.Deadline(), Shard: shard, NShards: n}
 }
 
